@@ -308,11 +308,45 @@ def _domain(tier):
     return _DOMAIN[tier]
 
 
+def call_probe(acc):
+    """containers that sit inside a printed CALL with several arguments (the non-hugged path of pretty_call_alt):
+    the limit applies there too: one exact notice per over-long container argument, none otherwise"""
+    import collections as _c
+    import types as _t
+    NT = _c.namedtuple('C10NT', 'xs ys')
+    values = [
+        ('deque(range(5), maxlen=9)', _c.deque(range(5), maxlen=9), [5]),
+        ('C10NT(list(range(6)), tuple(range(3)))', NT(list(range(6)), tuple(range(3))), [6, 3]),
+        ('SimpleNamespace(a=list(range(4)), b={i: i for i in range(5)})',
+         _t.SimpleNamespace(a=list(range(4)), b={i: i for i in range(5)}), [4, 5]),
+        ('[C10NT([1, 2, 3, 4], (5, 6, 7, 8, 9))]', [NT([1, 2, 3, 4], (5, 6, 7, 8, 9))], [1, 4, 5]),
+    ]
+    for name, v, lens in values:
+        for n in (1, 2, 3, 4, 7, None):
+            for w in (1, 20, 79):
+                acc['evaluations'] += 1
+                kwargs = {'max_seq_len': n, 'width': w}
+                with common.caught_warnings() as cw:
+                    out = pformat(v, **kwargs)
+                joined = ' '.join(c.strip() for c in (common.comments_of(out) or []))
+                want = sorted('...and %d more elements' % (k - n) for k in lens if n is not None and k > n)
+                # a notice may be wrapped over several comment lines at width 1: compare the digits only
+                got_counts = sorted(int(x) for x in re.findall(r'and (\d+) more elements', joined))
+                want_counts = sorted(k - n for k in lens if n is not None and k > n)
+                if cw.bad or got_counts != want_counts:
+                    acc['violations'].append({
+                        'kind': 'call-argument-truncation', 'case': {'check': 'call-probe', 'name': name, 'kwargs': kwargs},
+                        'observed': out[:300] + (' | warning: ' + cw.bad[0] if cw.bad else ''),
+                        'expected': 'notices %s' % want, 'tags': sorted(['in-call', 'N=None' if n is None else 'N=int'])})
+
+
 def _shard(arg):
     tier, shard = arg
     t0 = time.process_time()
     dom = _domain(tier)
     acc = common.new_acc()
+    from pvf import monitor as _monitor
+    _sink = _monitor.install_ctx_invariant()
     cnt = acc['counters']
     best = {}
     for i, (expr, tags) in enumerate(dom):
@@ -341,6 +375,9 @@ def _shard(arg):
                         if key not in best or size < best[key][0]:
                             best[key] = (size, v)
     acc['violations'] = [b[1] for b in best.values()]
+    if shard == 0:
+        call_probe(acc)
+    _monitor.drain(_sink, acc)
     cnt['cpu_s'] = time.process_time() - t0
     return acc
 
@@ -377,6 +414,14 @@ def run(tier, seed, jobs=16):
 
 
 def replay(case):
+    if isinstance(case, dict) and case.get('check') == 'call-probe':
+        acc = common.new_acc()
+        call_probe(acc)
+        hit = [v for v in acc['violations'] if v['case'] == case]
+        return {'violated': bool(hit), 'detail': hit[0]['observed'] if hit else 'holds'}
+    if isinstance(case, dict) and case.get('check') == 'ctx-invariant':
+        from pvf import monitor as _monitor
+        return _monitor.replay_ctx_invariant(case)
     if isinstance(case, dict) and case.get('check') == 'ctx':
         from . import ctx_contracts as _ctx
         return _ctx.replay(case)
